@@ -251,6 +251,9 @@ fn gen_c15(tier: &str, rng: &mut Rng) -> Vec<Case> {
         if opt == 7 && rng.chance(2, 3) {
             base.footnotes = 1;
         }
+        if (opt == 2 || opt == 3) && rng.chance(1, 3) {
+            base.overflow = true;
+        }
         let mut var = base.clone();
         let slice: &'static str = match opt {
             0 => {
@@ -295,6 +298,40 @@ fn gen_c15(tier: &str, rng: &mut Rng) -> Vec<Case> {
             let id = cases.len();
             let mut c = mk_case(id, 0, cfg, w, bytes.clone(), Some(0), g(role), slice);
             c.group = gi;
+            cases.push(c);
+        }
+    }
+    // struck text under allow_width_overflow at widths below a character's width: the strike mark
+    // stays with its character
+    let ns = if tier == "thorough" { 10000 } else { 600 };
+    for gi in 0..ns {
+        let mut body = String::new();
+        for _ in 0..rng.range(1, 4) {
+            match rng.below(5) {
+                0 => body.push(*rng.pick(&crate::gen::WIDE)),
+                1 => body.push_str("a"),
+                2 => body.push(' '),
+                3 => {
+                    body.push(*rng.pick(&crate::gen::WIDE));
+                    body.push('\u{301}');
+                }
+                _ => body.push_str("xy"),
+            }
+        }
+        let html = match rng.below(4) {
+            0 => format!("<s>{}</s>", body),
+            1 => format!("<p>a <del>{}</del> b</p>", body),
+            2 => format!("<ul><li><s>{}</s></li></ul>", body),
+            _ => format!("<p>{}</p>", body),
+        };
+        let base = Cfg { deco: *rng.pick(&[0u8, 1, 2, 3]), overflow: true, ..Default::default() };
+        let mut var = base.clone();
+        var.strike = 2;
+        let w = rng.range(1, 3);
+        for (role, cfg) in [("base", base), ("variant", var)] {
+            let id = cases.len();
+            let mut c = mk_case(id, 0, cfg, w, html.clone().into_bytes(), Some(0), g(role), "strike_off");
+            c.group = 9_000_000 + gi;
             cases.push(c);
         }
     }
@@ -381,7 +418,19 @@ fn check_c15(cases: &[Case], results: &[Option<RunResult>]) -> Vec<Violation> {
                 (Some(x), Some(y)) => {
                     let rs = |s: &str| s.split('\n').map(|l| l.trim_end_matches(' ').to_string()).collect::<Vec<_>>();
                     if rs(x) != rs(y) {
-                        let known = if has_element(&dom, &["pre"]) { Some("pad_blank_pre_line") } else { None };
+                        let mut pre_style = false;
+                        walk(&dom, &mut |n, _| {
+                            if n.attr("style").map(|st| st.contains("white-space")).unwrap_or(false) {
+                                pre_style = true;
+                            }
+                        });
+                        let known = if cases[b].spec.cfg.overflow && has_element(&dom, &["table"]) {
+                            Some("pad_overflowing_table_cell")
+                        } else if has_element(&dom, &["pre"]) || pre_style {
+                            Some("pad_blank_pre_line")
+                        } else {
+                            None
+                        };
                         v.push(viol(b, "pad_block_width changed more than trailing spaces", String::new(), known));
                     }
                 }
@@ -1367,7 +1416,7 @@ fn sup_back(c: char) -> char {
         c => c,
     }
 }
-fn c03_known(dom: &[DNode]) -> Option<&'static str> {
+pub fn c03_known(dom: &[DNode]) -> Option<&'static str> {
     let mut k = None;
     walk(dom, &mut |n, anc| {
         if n.is("tfoot") || n.is("caption") {
